@@ -438,7 +438,23 @@ def fcmp(pred, a, b):
         return const(1, 0)
     if pred in _FSWAP:
         pred, a, b = _FSWAP[pred], b, a
+    if pred in ('uno', 'ord'):
+        # x uno c  ==  x uno x   for any non-NaN constant c  (LLVM's canonical isnan is "fcmp uno x, 0.0")
+        for (x, c) in ((a, b), (b, a)):
+            if is_const(c) and not _is_nan_const(c):
+                a = b = canon(x)
+                break
     return raw_op('f' + pred, 1, a, b)
+
+
+def _is_nan_const(c):
+    w = width(c)
+    v = const_val(c)
+    if w == 32:
+        return (v >> 23) & 0xff == 0xff and v & 0x7fffff != 0
+    if w == 64:
+        return (v >> 52) & 0x7ff == 0x7ff and v & ((1 << 52) - 1) != 0
+    return True
 
 
 def _neg_cmp(t):
